@@ -21,7 +21,7 @@ ASSUMPTIONS = [
 BOUNDS = {"quick": "every projective-measurement case of C04 with destructive flags, POVM at the three entry points, sequences of two "
                    "calls; <= 6 draws per program",
           "thorough": "all flag combinations"}
-OPTS = {"quick": {"max_paths": 64, "timeout_ms": 10000, "case_timeout_s": 900, "exact_close": True},
+OPTS = {"quick": {"max_paths": 160, "timeout_ms": 10000, "case_timeout_s": 900, "exact_close": True},
         "thorough": {"max_paths": 128, "timeout_ms": 30000, "case_timeout_s": 1800, "exact_close": True}}
 
 
